@@ -51,9 +51,9 @@ type c18cliCase struct {
 	Tool   string `json:"tool"`   // obiconvert obicsv
 	Format string `json:"format"` // fasta fastq json csv
 	Gzip   bool   `json:"gzip"`
-	Input  string `json:"input"` // small medium large
-	Dest   string `json:"dest"`  // devfull-file devfull-stdout fifo
-	K      int    `json:"k"`     // fifo: bytes read before the read end is closed
+	Input  string `json:"input"`          // small medium large
+	Dest   string `json:"dest"`           // devfull-file devfull-stdout fifo
+	K      int    `json:"k"`              // fifo: bytes read before the read end is closed
 	Mode   string `json:"mode,omitempty"` // "" default paired-R1 paired-R2 distribute distribute-append save-discarded auto
 }
 
@@ -496,7 +496,9 @@ func TestVerifC18CLI(t *testing.T) {
 	eval := func(c c18cliCase) {
 		ct := control(c)
 		if !ct.ok {
-			t.Fatalf("c18: fault-free run of %s unusable: %s", c, ct.why)
+			// a command that fails without any fault is a verdict on the tree under test, not a harness failure
+			r.Violate(fmt.Sprintf("cli/%s/control-run/fault-free-run-misbehaves", c.Tool), fmt.Sprintf("fault-free run of %v: %s", c, ct.why), c)
+			return
 		}
 		var res c18cliRes
 		certain := false
@@ -536,46 +538,46 @@ func TestVerifC18CLI(t *testing.T) {
 				r.Count("cli_mode_"+c.Mode+"_certain_failures", 1)
 			}
 		} else {
-		switch c.Dest {
-		case "devfull-file":
-			cmd := exec.Command(bins[c.Tool], c18cliArgs(c, inputs[c.Input], "/dev/full")...)
-			var errb bytes.Buffer
-			cmd.Stderr = &errb
-			if err := cmd.Start(); err != nil {
-				t.Fatal(err)
+			switch c.Dest {
+			case "devfull-file":
+				cmd := exec.Command(bins[c.Tool], c18cliArgs(c, inputs[c.Input], "/dev/full")...)
+				var errb bytes.Buffer
+				cmd.Stderr = &errb
+				if err := cmd.Start(); err != nil {
+					t.Fatal(err)
+				}
+				res = c18cliWait(cmd, &errb, 120*time.Second)
+				certain = true
+			case "devfull-stdout":
+				f, err := os.OpenFile("/dev/full", os.O_WRONLY, 0)
+				if err != nil {
+					t.Fatal(err)
+				}
+				cmd := exec.Command(bins[c.Tool], c18cliArgs(c, inputs[c.Input], "")...)
+				var errb bytes.Buffer
+				cmd.Stderr = &errb
+				cmd.Stdout = f
+				if err := cmd.Start(); err != nil {
+					t.Fatal(err)
+				}
+				res = c18cliWait(cmd, &errb, 120*time.Second)
+				f.Close()
+				certain = true
+			case "fifo":
+				var capacity int
+				var full bool
+				var err error
+				res, capacity, full, err = c18cliFifo(bins[c.Tool], c, inputs[c.Input], filepath.Join(work, "out.fifo"))
+				if err != nil {
+					t.Fatalf("c18: fifo set-up failed: %v", err)
+				}
+				// a write is certain to have failed when the FIFO was seen full with bytes still to
+				// come: at most k+capacity bytes were accepted, the result is larger
+				certain = full && ct.size > c.K+capacity+4096
+				if !certain {
+					r.Count("cli_fifo_runs_without_certain_failure", 1)
+				}
 			}
-			res = c18cliWait(cmd, &errb, 120*time.Second)
-			certain = true
-		case "devfull-stdout":
-			f, err := os.OpenFile("/dev/full", os.O_WRONLY, 0)
-			if err != nil {
-				t.Fatal(err)
-			}
-			cmd := exec.Command(bins[c.Tool], c18cliArgs(c, inputs[c.Input], "")...)
-			var errb bytes.Buffer
-			cmd.Stderr = &errb
-			cmd.Stdout = f
-			if err := cmd.Start(); err != nil {
-				t.Fatal(err)
-			}
-			res = c18cliWait(cmd, &errb, 120*time.Second)
-			f.Close()
-			certain = true
-		case "fifo":
-			var capacity int
-			var full bool
-			var err error
-			res, capacity, full, err = c18cliFifo(bins[c.Tool], c, inputs[c.Input], filepath.Join(work, "out.fifo"))
-			if err != nil {
-				t.Fatalf("c18: fifo set-up failed: %v", err)
-			}
-			// a write is certain to have failed when the FIFO was seen full with bytes still to
-			// come: at most k+capacity bytes were accepted, the result is larger
-			certain = full && ct.size > c.K+capacity+4096
-			if !certain {
-				r.Count("cli_fifo_runs_without_certain_failure", 1)
-			}
-		}
 		}
 		r.Eval(1)
 		r.Trans(1)
